@@ -555,9 +555,10 @@ fn check_sort(ex: &mut Exec, op: &Op, k: usize, step: usize, probes: &[String], 
         Op::SortModel(m) => (ex.models[*m].root_element(), Some(*m)),
         _ => unreachable!(),
     };
+    // the view first: ArxmlFile::serialize rewrites the xsi:schemaLocation attribute of the root for the file's version
+    let vb = mi.map(|m| view(ex, m, probes));
     let mut before = vec![];
     snapshot(&root, 0, &mut before);
-    let vb = mi.map(|m| view(ex, m, probes));
     let r = ex.apply(op);
     let mut fail = |kind: &str, d: String| fails.push(format!("FAIL {} script={} step={} op={} {}", kind, k, step, op.line().replace(' ', "_"), d));
     if r != "R OK" {
